@@ -71,6 +71,7 @@ def rand_case(rng, n=None, kinds=None):
                 if any(g["name"] == name for g in genes):
                     continue
             genes.append(dict(kind="default", name=name, weight=w, params=({"size": rng.choice([1, 2, 3])} if name == "linkage_list" else {})))
+    rng.shuffle(genes)          # pair genes before, between and after vector genes
     nr = rng.choice([(0.0, 1.0), (0.0, 1.0), (-1.0, 2.5), (rng.randint(-8, 8) / 4, None), (None, rng.randint(-8, 8) / 4), (None, None), (0.5, 0.5)])
     nd = rng.choice([1.0, 1.0, 2.5, None])
     case = dict(structs=structs, genes=genes, norm_range=list(nr), norm_dist=nd)
@@ -276,7 +277,24 @@ def check_case(case, t_u=(0.37, 0.81), km_k=None, perm=None, collect=None):
         k = km_k or max(1, min(n, 2))
         np.random.seed(12345)
         try:
-            labels, slices = build(case).get_kmeans_clusters(k)
+            import soprano.analyse.phylogen.phylogenclust as _pc
+            _seen = {}
+            _orig = _pc.vq.kmeans
+
+            def _rec(obs_, k_, *a_, **kw_):          # harness-side recorder of the centroids scipy hands back
+                out_ = _orig(obs_, k_, *a_, **kw_)
+                _seen["cents"], _seen["obs"] = np.array(out_[0], float), np.array(obs_, float)
+                return out_
+            _pc.vq.kmeans = _rec
+            try:
+                labels, slices = build(case).get_kmeans_clusters(k)
+            finally:
+                _pc.vq.kmeans = _orig
+            if collect is not None and "cents" in _seen and _seen["obs"].size and _seen["cents"].size:
+                dd = ((_seen["obs"][:, None, :] - _seen["cents"][None, :, :]) ** 2).sum(-1)
+                srt = np.sort(dd, axis=1)
+                if srt.shape[1] < 2 or np.all(srt[:, 1] - srt[:, 0] > 1e-9 * np.maximum(1.0, srt[:, 1])):      # no near-ties between centroids
+                    collect["vq"] = (_seen["cents"].tolist(), _seen["obs"].tolist(), [int(x) for x in labels])
             g_ = groups_problem(labels, slices, n, "get_kmeans_clusters(%d)" % k)
             if g_:
                 probs.append(g_)
@@ -389,6 +407,10 @@ def run(ctx):
         for labels, slices in col.get("labels", [])[:3]:
             exc.append("flat_map (fun g => g ++ [-1]) (groups %s)" % fw.zlist(labels))
             metac.append(("groups", [x for s in slices for x in list(s) + [-1]], dict(labels=labels)))
+        if "vq" in col and len(col["vq"][1]) * len(col["vq"][0]) <= 60:
+            cents_, obs_, labs_ = col["vq"]
+            exq.append("vq_labels [%s] [%s]" % ("; ".join(qlist(c_) for c_ in cents_), "; ".join(qlist(o_) for o_ in obs_)))
+            metaq.append(("vq", labs_, dict(k=len(cents_), n=len(obs_))))
         if "single" in col:
             D, t, labels = col["single"]
             S = 2 ** 30
@@ -399,13 +421,18 @@ def run(ctx):
         vals = fw.coq_eval("c19q", IMPQ, exq)
         nbad, first = 0, ""
         for mv, (kind, got, info) in zip(vals, metaq):
+            if kind == "vq":
+                if list(mv) != list(got):
+                    nbad += 1
+                    first = first or "vq %s: model labels %s impl %s" % (info, list(mv), got)
+                continue
             want = [mv[k] / mv[k + 1] for k in range(0, len(mv), 2)]
             if len(want) != len(got) or any(abs(a_ - b_) > 1e-9 * max(1.0, abs(a_)) for a_, b_ in zip(want, got)):
                 nbad += 1
                 first = first or "%s %s: model %s impl %s" % (kind, info, [round(x, 9) for x in want][:8], [round(x, 9) for x in got][:8])
         ctx.evaluations += len(exq)
-        ctx.stats["model_cases"] = dict(norm_columns=sum(1 for m_ in metaq if m_[0] == "norm"), dist2=sum(1 for m_ in metaq if m_[0] == "dist2"))
-        ctx.oblige("PhyloQ model (norm_both/norm_max/norm_min, scale, dist2) == get_genome_vectors_norm / get_distmat^2 [%d cases]" % len(exq), "correspondence", nbad == 0,
+        ctx.stats["model_cases"] = dict(norm_columns=sum(1 for m_ in metaq if m_[0] == "norm"), dist2=sum(1 for m_ in metaq if m_[0] == "dist2"), vq=sum(1 for m_ in metaq if m_[0] == "vq"))
+        ctx.oblige("PhyloQ model (norm_both/norm_max/norm_min, scale, dist2, vq_labels) == get_genome_vectors_norm / get_distmat^2 / k-means labels [%d cases]" % len(exq), "correspondence", nbad == 0,
                    "%d disagree; first: %s" % (nbad, first))
     if ok and exc:
         vals = fw.coq_eval("c19c", IMPC, exc)
